@@ -158,6 +158,16 @@ func MakeExtraBox(e ExtraBox) mp4.Box {
 	}
 }
 
+// poisonSamples overwrites a caller-owned metadata slice (including its spare
+// capacity) after it was handed to the library, as a caller recycling its
+// buffer would (e.g. SampleInterval.Reset followed by appends).
+func poisonSamples(ss []mp4.Sample) {
+	ss = ss[:cap(ss)]
+	for i := range ss {
+		ss[i] = mp4.Sample{Flags: 0xdeadbeef, Dur: 0xfffffff1, Size: 0xfffffff2, CompositionTimeOffset: -77}
+	}
+}
+
 func encodeBox(b mp4.Box, sw bool) ([]byte, error) {
 	if sw {
 		w := bits.NewFixedSliceWriter(int(b.Size()))
@@ -207,18 +217,22 @@ func BuildFragment(h *History, fs *FragmentSpec) (f *mp4.Fragment, tail []byte, 
 			f.AddSample(mp4.NewSample(s.Flags, s.Dur, s.Size, s.Cto), s.DecodeTime)
 			tail = append(tail, s.Data()...)
 		case OpAddSamples:
-			var ss []mp4.Sample
+			// the caller's metadata slice has spare capacity and is recycled
+			// (overwritten) right after the call: the library must have copied it
+			ss := make([]mp4.Sample, 0, len(op.Samples)+4)
 			for _, s := range op.Samples {
 				ss = append(ss, mp4.NewSample(s.Flags, s.Dur, s.Size, s.Cto))
 				tail = append(tail, s.Data()...)
 			}
 			f.AddSamples(ss, op.Samples[0].DecodeTime)
+			poisonSamples(ss)
 		case OpAddSampleToTrack:
 			s := op.Samples[0]
 			err = f.AddSampleToTrack(mp4.NewSample(s.Flags, s.Dur, s.Size, s.Cto), op.Track, s.DecodeTime)
 			tail = append(tail, s.Data()...)
 		case OpAddSampleInterval:
 			si := mp4.SampleInterval{FirstDecodeTime: op.Samples[0].DecodeTime, OffsetInMdat: mdatOff}
+			si.Samples = make([]mp4.Sample, 0, len(op.Samples)+4)
 			for _, s := range op.Samples {
 				si.Samples = append(si.Samples, mp4.NewSample(s.Flags, s.Dur, s.Size, s.Cto))
 				si.Data = append(si.Data, s.Data()...)
@@ -226,6 +240,7 @@ func BuildFragment(h *History, fs *FragmentSpec) (f *mp4.Fragment, tail []byte, 
 			}
 			mdatOff += si.Size
 			err = f.AddSampleInterval(si)
+			poisonSamples(si.Samples) // metadata only: Data is documented to be kept by reference
 		default:
 			err = fmt.Errorf("unknown op %q", op.Kind)
 		}
